@@ -8,12 +8,13 @@ EXTENDS MapDict, Json, TLC
 CONSTANTS Keys, KSz, VSizes, Limit,
           DigMode,     \* "spread": distinct first-level digests; "clustered": tiny alphabets per level
           Persist,     \* sprinkle commit / drop cache / crash events
+          AllowPop,    \* bulk pops in the churn phase
           GrowUntil, ShrinkFrom, EmitDepth
 
 VARIABLES dict, nextId, hist, cdict, hasc
 wvars == <<dict, nextId, hist, cdict, hasc>>
 
-Spread(k)    == <<(k * 37) % 101, (k * 11) % 7, k % 3, k % 2>>
+Spread(k)    == <<(k * 37) % 1009, (k * 11) % 7, k % 3, k % 2>>
 Clustered(k) == <<k % 3, (k \div 3) % 2, (k \div 6) % 2, (k \div 12) % 2>>
 Dig(k) == IF DigMode = "spread" THEN Spread(k) ELSE Clustered(k)
 KeysSeq == [k \in 1..Cardinality(Keys) |-> Dig(k)]
@@ -31,13 +32,13 @@ RemoveK(k) ==
 GetK(k) == UNCHANGED <<dict, nextId, cdict, hasc>> /\ hist' = Append(hist, <<"mget", k, KSz>>)
 HasK(k) == UNCHANGED <<dict, nextId, cdict, hasc>> /\ hist' = Append(hist, <<"mhas", k, KSz>>)
 
-Commit(md, w) == Persist /\ cdict' = dict /\ hasc' = TRUE /\ UNCHANGED <<dict, nextId>> /\ hist' = Append(hist, <<"commit", md, w, 0>>)
-DropCache == Persist /\ UNCHANGED <<dict, nextId, cdict, hasc>> /\ hist' = Append(hist, <<"dropcache">>)
-Crash == Persist /\ hasc /\ dict' = cdict /\ UNCHANGED <<nextId, cdict, hasc>> /\ hist' = Append(hist, <<"crash">>)
-PopAll == Len(dict) > 0 /\ Len(hist) % 11 = 0 /\ dict' = <<>> /\ UNCHANGED <<nextId, cdict, hasc>> /\ hist' = Append(hist, <<"mpop">>)
-Present == {k \in Keys : HasKey(dict, k)}
 Growing == Len(hist) <= GrowUntil
 Shrinking == Len(hist) > ShrinkFrom
+Commit(md, w) == Persist /\ cdict' = dict /\ hasc' = TRUE /\ UNCHANGED <<dict, nextId>> /\ hist' = Append(hist, <<"commit", md, w, 0>>)
+DropCache == Persist /\ UNCHANGED <<dict, nextId, cdict, hasc>> /\ hist' = Append(hist, <<"dropcache">>)
+Crash == Persist /\ ~Growing /\ hasc /\ dict' = cdict /\ UNCHANGED <<nextId, cdict, hasc>> /\ hist' = Append(hist, <<"crash">>)
+PopAll == AllowPop /\ Len(dict) > 0 /\ Len(hist) % 11 = 0 /\ dict' = <<>> /\ UNCHANGED <<nextId, cdict, hasc>> /\ hist' = Append(hist, <<"mpop">>)
+Present == {k \in Keys : HasKey(dict, k)}
 Next == \/ ~Shrinking /\ \E k \in Keys, v \in VSizes : SetK(k, v)
         \/ Growing /\ \E k \in Keys \ Present, v \in VSizes : SetK(k, v)       \* bias towards new keys
         \/ Shrinking /\ \E k \in Present, v \in VSizes : SetK(k, v)
